@@ -30,6 +30,18 @@ META = {
  "C28": ("TLC compares the observer map with the reference model's access sets and evaluates ObsProp on logged marks vs. the full memory diff (TV_Machine)",
          "After every event the whole observer map (READ/WRITTEN/MODIFIED per address) must equal what Machine!StepIn computes; ObsProp additionally states on the logged data alone that MODIFIED implies WRITTEN, every non-I/O word whose value changed is WRITTEN+MODIFIED and a WRITTEN-only word did not change; host accesses through untracked contexts must not alter the map.",
          "READ marks at I/O addresses are compared as the code produces them (the property exempts them).", "5 (C28)"),
+ "C14": ("TLC relational validation of lockstep strict/non-strict pairs of real runs (TV_Pairs) + StrictRel evaluated by TLC from every validated state (TV_Machine)",
+         "Real simulators are driven in lockstep from identical states with strict mode off and on; TLC checks on the logged pair, step by step, that the strict run either fails with one of the nine strict errors or has exactly the non-strict outcome and projection (registers, PC, PSR, saved SP, memory diff, device buffers, instruction count, observer), and that on fully initialized machines no strict error occurs. Inside the specification, StrictRel evaluates both StepF variants from every validated machine state.",
+         "Relation evaluated on logged data only; fully-initialized runs are not value-validated against Machine.", "5 (C14)"),
+ "C29": ("TLC trace validation of Simulator::new (NewOK on the full initial memory) and load_obj_file (Machine!LoadBlocks, full memory diff)",
+         "The header of every run carries the full memory of the new simulator; NewOK requires the OS object image at its addresses, zeros in the I/O page and uninitialized filler elsewhere; every load is validated against Machine!LoadBlocks with the diff of all 65 536 words, registers, PC and the allocation list, and loads with unresolved externals must change nothing.",
+         "OS image taken from _os_obj_file() through the verif_block_iter hook.", "5 (C29)"),
+ "C30": ("TLC trace validation of Simulator::reset against ResetTo (fresh header + kept configuration), full memory diff",
+         "After random histories, reset must bring memory (full diff), registers, PC, PSR, saved SP, frames, instruction count and status back to the run's fresh header while keeping flags, MCR value and handle, internal-register mappings, the device table (with io_reset applied) and breakpoints; probes through kept mappings follow.",
+         "Breakpoints are compared by count, the MCR handle by Arc::ptr_eq (logged by the harness).", "5 (C30)"),
+ "C31": ("TLC relational validation: two independent real runs per configuration must be identical event by event (TV_Pairs) + NewOK for the Known strategy",
+         "For Known and Seeded strategies with seeded timers two independent runs of the same scripted scenario are recorded and TLC requires every event (header with full initial memory, per-step projection, environment, outcome) to be equal; NewOK states the Known-strategy initialization rule.",
+         "Unseeded strategy and OS-seeded timers are outside the property.", "5 (C31)"),
  "C35": ("TLC: MC_Offsets (arithmetic vs shift definition, all N and values) + TLC table validation of real Offset::new/new_trunc",
          "MC_Offsets proves for all N in 1..16 and all 16-bit values that the property's arithmetic statement equals the shift-based computation; the real Offset::<i16|u16,N>::new/new_trunc/get results are validated record by record against the arithmetic statement: boundary+random values in quick, all 2 097 152 (N, value) cases in thorough.",
          "The 32 monomorphic instantiations are generated by macro in harness/src/tables.rs.", "5 (C35)"),
